@@ -388,6 +388,10 @@ def signature(kind, clause, bad, rec, case, info):
     sig = dict(fn="point_density", clause=head, kernel=case["kernel"], axial=case["axial"], cap=case["cap"])
     if head in ("order", "sign"):
         sig["amplified"] = bool(info.get("amplified"))
+    if head == "finite" and case["cap"] in ("pos", "none"):
+        # narrow the signature to the scenario's discrete data-count and weight classes
+        sig["n"] = case["n"]
+        sig["w"] = "%d/%d" % tuple(case["weight"])
     return sig
 
 
